@@ -99,9 +99,9 @@ waitScript:
 		case <-finished:
 			break waitScript
 		case <-time.After(time.Second):
-			// heartbeat, not wall-clock (see stress.go): 3 minutes of process run time
-			if beat.Load()-startBeat >= 3600 {
-				res.Vios = append(res.Vios, stressVio{Sig: "hang", Detail: fmt.Sprintf("the script did not finish within 180s of process run time (P=%d C=%d N=%d closers=%d rounds=%d) | goroutines: %s", cfg.P, cfg.C, cfg.N, cfg.Closers, cfg.Rounds, stacks())})
+			// heartbeat, not wall-clock (see stress.go): one minute of process run time
+			if beat.Load()-startBeat >= 1200 {
+				res.Vios = append(res.Vios, stressVio{Sig: "hang", Detail: fmt.Sprintf("the script did not finish within 60s of process run time (P=%d C=%d N=%d closers=%d rounds=%d) | goroutines: %s", cfg.P, cfg.C, cfg.N, cfg.Closers, cfg.Rounds, stacks())})
 				b, _ := json.Marshal(res)
 				fmt.Println(string(b))
 				return 0
